@@ -28,13 +28,21 @@ func newStore(ss storage.Storage) *store {
 	if err != nil {
 		log.Fatal(err)
 	}
+	var shadowed []*ds.Key
 	s.ss.ScanKeys(func(key *ds.Key) bool {
 		var m = newMetadata()
 		m.key = key
+		m.stored = ds.NewKey(key.Name, key.Expiration)
 		m.state |= KeyStateNormal
-		s.metadata.Set(key.Name, m)
+		if old, replaced := s.metadata.Set(key.Name, m); replaced {
+			// an entry left behind under an earlier deadline
+			shadowed = append(shadowed, old.stored)
+		}
 		return true
 	})
+	for _, key := range shadowed {
+		_ = s.ss.Delete(key)
+	}
 	return s
 }
 
@@ -53,7 +61,7 @@ func (s *store) flush() {
 			return true
 		}
 		// save to storage
-		err := s.ss.Set(m.key, m.value)
+		err := m.persist(s.ss)
 		if err != nil {
 			log.Println("Flush changes: ", err)
 		}
@@ -77,10 +85,11 @@ func (s *store) gc() {
 		defer m.Unlock()
 		if m.expired(now) || !m.isOk() {
 			expired = append(expired, key)
+			m.unpersist(s.ss)
 			return true
 		}
 		if m.modified() {
-			err := s.ss.Set(m.key, m.value)
+			err := m.persist(s.ss)
 			if err != nil {
 				log.Println("GC: ", err)
 			}
